@@ -79,3 +79,8 @@ Definition issuance_consistent (subs : list submission) : Prop :=
   forall s1 s2, In s1 subs -> In s2 subs -> H (s_leaf s1) = H (s_leaf s2) ->
     s_leaf s1 = s_leaf s2 /\ issuance s1 = issuance s2.
 End Client.
+
+(* the outcome of the request at position |before| of the history before ++ s :: after *)
+Definition at_pos (H : bytes -> bytes) (sign : N -> bytes -> option bytes) (g : val -> val -> bool) (cfg : config)
+  (before : list submission) (s : submission) (after : list submission) (o : outcome) : Prop :=
+  nth_error (snd (run H sign g cfg (before ++ s :: after))) (length before) = Some (s, o).
